@@ -45,9 +45,10 @@ def check(ctx):
 
     # --- classify abort calls: own (setup, cleanup are the runner's parameters 3, 4) vs foreign (discard loop) ---
     abort_own, abort_foreign = [], []
+    si0_, ci0_ = A.abort_positions(prog)
     for b in abort_all:
         t = R.blocks[b]["term"]
-        if lib.originates_from_arg(R, t["args"][1], 3) and lib.originates_from_arg(R, t["args"][2], 4):
+        if lib.originates_from_arg(R, t["args"][si0_ - 1], 3) and lib.originates_from_arg(R, t["args"][ci0_ - 1], 4):
             abort_own.append(b)
         else:
             abort_foreign.append(b)
@@ -282,11 +283,12 @@ def check(ctx):
                     # every iteration aborts the popped element
                     ab_in = [b for b in abort_foreign if b in lbody]
                     okab = False
+                    si_, ci_ = A.abort_positions(prog)
                     for b in ab_in:
                         t = R.blocks[b]["term"]
-                        if lib.originates_from_call(R, t["args"][1], pb, ("@Some", ".0", ".setup")) or \
-                           from_popped(R, t["args"][1], pb, "setup"):
-                            if from_popped(R, t["args"][2], pb, "cleanup"):
+                        if lib.originates_from_call(R, t["args"][si_ - 1], pb, ("@Some", ".0", ".setup")) or \
+                           from_popped(R, t["args"][si_ - 1], pb, "setup"):
+                            if from_popped(R, t["args"][ci_ - 1], pb, "cleanup"):
                                 okab = True
                     w2 = lib.path_between_avoiding(R, [some_p], backs_targets(R, h, backs), ab_in) if ab_in else [some_p]
                     ctx.check(okab and w2 is None, "C02.c", "%s:discard-aborts-each-leftover" % fk, R.loc(pb),
